@@ -308,7 +308,15 @@ class MoveAnalysis:
                                  and isinstance(x.ctx, ast.Store) for x in walk_local(callee.node))
                     if not writes:
                         continue
-                    sub = MoveAnalysis(self.ctx, callee, self.fields, self.res, v_name="\0no translation parameter", depth=self.depth + 1)
+                    # the translation vector handed on as an argument (`self._move_points(v)`) is the helper's translation parameter
+                    vname = "\0no translation parameter"
+                    for i_, a_ in enumerate(c.args):
+                        if isinstance(a_, ast.Name) and a_.id == self.v and i_ + 1 < len(callee.params):
+                            vname = callee.params[i_ + 1]
+                    for k_ in c.keywords:
+                        if isinstance(k_.value, ast.Name) and k_.value.id == self.v and k_.arg in callee.params:
+                            vname = k_.arg
+                    sub = MoveAnalysis(self.ctx, callee, self.fields, self.res, v_name=vname, depth=self.depth + 1)
                     out = sub.run_from([sub.g.entry], State(fresh, (), axes))
                     if out is not None:
                         fresh = set(out.fresh)
